@@ -22,6 +22,18 @@ NOT_COVERED = ['rounding: the theorems are about exact arithmetic; float behavio
                'bit-exact PrimFloat correspondence']
 ASSUMPTIONS = ['"keeps a diagonal entry wherever the input has one" is read as: wherever the stored '
                'diagonal is nonzero (eliminate_zeros removes explicit zeros by design)']
+TECHNIQUE = 'Coq proof of the threshold rules + bit-exact model/implementation correspondence'
+LEVEL_TEXT = ('Kernel-checked theorems (Props/C14.v, closed under the global context) about the Gallina model of the '
+              'classical (abs/min) and symmetric strength kernels and of the Python tail: iff-characterisations with the '
+              'row maximum as least upper bound, pattern containment, monotonicity in theta, theta=0, entries in [0,1], '
+              'row maximum 1, nonzero diagonal kept -- for every matrix over any ordered field.  The same Gallina '
+              'definitions are evaluated (vm_compute) at PrimFloat and Q on the inputs the rebuilt working-tree kernels '
+              'and pyamg.strength ran on and must agree bit-for-bit; an independent dense oracle decides the property '
+              'on every generated case and supplies the failing input.')
+LEVEL_NOTE = ('Exact-arithmetic theorems; float behaviour only through the bit-exact correspondence.  Other measures '
+              '(evolution, energy, distance, affinity, algebraic distance), BSR reductions and complex data: common '
+              'contract decided by the oracle only.  Trusted: Coq kernel + vm_compute, harness, minipb rebuild, SciPy '
+              'csr construction / eliminate_zeros / csr_scale_rows.')
 HEADER = ('From Coq Require Import ZArith List QArith PrimFloat.\nImport ListNotations.\n'
           'Require Import PV.Base.Ops PV.Model.StrengthRun.\nOpen Scope Z_scope.\n')
 TINY = np.finfo(float).tiny
